@@ -560,7 +560,8 @@ NET_BASES = ['x', 'X', 'y', 'bus', 'x_1', 'n']
 def gen_cell_nets(rng):
     """nets of one cell in file order, with the collisions the reader has to sort out: bits of
     several buses interleaved, scalars named like a bus or like a bit, identifiers differing only
-    in case, duplicate bits, renamed nets whose name is another net's identifier. No * or ?."""
+    in case, duplicate bits, renamed nets whose name is another net's identifier, names containing
+    * or ? (ordinary characters: the reader looks cables up exactly since the repair of K7)."""
     nets = []
     used_ident = set()
     pin = [0]
@@ -574,12 +575,13 @@ def gen_cell_nets(rng):
         base = rng.choice(NET_BASES)
         r = rng.random()
         if r < 0.5:
-            name = base if rng.random() < 0.7 else rng.choice(['my ' + base, base + '.q', '\\' + base, '\\' + base + ' '])
+            name = base if rng.random() < 0.7 else rng.choice(['my ' + base, base + '.q', '\\' + base, '\\' + base + ' ',
+                                                               base[:1] + '*', '?' * len(base), '*'])
             lo = rng.choice([0, 1, 4])
             for i in rng.sample(range(lo, lo + 4), rng.choice([1, 2, 3])):
                 nets.append(('%s_%d_' % (base, i), '%s[%d]' % (name, i), pins()))
         elif r < 0.75:
-            nets.append((base, base if rng.random() < 0.6 else rng.choice(['[3:0]' + base, base + '[2]', 'other'])  , pins()))
+            nets.append((base, base if rng.random() < 0.6 else rng.choice(['[3:0]' + base, base + '[2]', 'other', '*', base[:1] + '?', base[:1] + '*[1]'])  , pins()))
         elif r < 0.9:
             i = rng.choice([0, 2])
             nets.append(('%s_%d_' % (base, i), rng.choice(['%s_%d_' % (base, i), 'plain', '%s[%d]' % (base, i + 1)]), pins()))
@@ -604,8 +606,9 @@ def check_nets(rng, n_cases, tmp):
                 flat = ' '.join('%d %s' % (len(w), ' '.join(map(str, w))) if w else '0' for w in ws)
                 parts.append('%s %s %d %d %d %s' % (tok_of_s(nm), tok_of_s(idt), lo, arr, len(ws), flat))
             res = ' '.join(parts)
-        except (IndexError, StopIteration, RuntimeError) as e:
-            # RuntimeError: generator raised StopIteration is not expected here; IndexError / StopIteration are the modelled ones
+        except (IndexError, StopIteration, RuntimeError, ValueError) as e:
+            # IndexError (separate_name_and_index) and ValueError (add_cable's error raised again by the handler that
+            # finds no cable to join) are the modelled ones
             stats['rejected'] += 1
             res = 'none'
         lines.append('readnets ' + net_tokens(nets))
